@@ -199,11 +199,52 @@ def rule_r4(ctx):
                              "loses its pending message / readiness" % (what, s.line))
 
 
+def rule_r6(ctx):
+    r = ctx.rule("C08.R6", "T1", "buffer before the parked message: pair0 / pair1 keep one message parked on the pipe when the receive buffer "
+                 "is full; the socket's receive function hands that parked message to the user only on the path on which "
+                 "nni_lmq_get(&s->rmq) found the buffer empty (otherwise it moves it to the tail of the buffer) -- handing it out "
+                 "while older messages are still buffered delivers them out of order", floor=2)
+    prog = ctx.prog
+    n = 0
+    for name, file in (("pair0_sock_recv", "pair0/pair.c"), ("pair1_sock_recv", "pair1/pair.c")):
+        f = prog.need(name, file)
+        if len(f.params) < 2:
+            raise AnalysisBroken("%s lost its aio parameter" % name)
+        uaio = f.params[1]["n"]
+        empty = {}
+        for c in f.calls("nni_lmq_get"):
+            if c.node["args"] and (last_field(f.expand(c.node["args"][0])) or "").endswith(".rmq"):
+                for b, (nz, z) in f.value_edges(c).items():
+                    empty[b] = nz
+        if not empty:
+            raise AnalysisBroken("%s no longer tries the receive buffer" % name)
+        # hand-outs: nni_aio_set_msg(<user aio>, m) where m was taken from the pipe's receive aio
+        for c in f.calls("nni_aio_set_msg"):
+            a = [f.expand(x) if x is not None else None for x in c.node["args"]]
+            if len(a) < 2 or a[0] is None or a[0].get("k") != "var" or a[0]["n"] != uaio or a[1] is None or a[1].get("k") != "var":
+                continue
+            defs = G.reaching_defs(f, a[1]["n"], (c.b, c.i))
+            parked = [d for _, d in defs if d is not None and d.get("k") == "call" and d.get("fn") == "nni_aio_get_msg" and d["args"] and
+                      (last_field(f.expand(d["args"][0])) or "").endswith(".aio_recv")]
+            if not parked:
+                continue
+            n += 1
+            if G.dominated(f, (c.b, c.i), empty):
+                r.ob(f, "parked message handed out at line %s only after the buffer was found empty" % c.line)
+            else:
+                ctx.fail(r, f, "parked message handed out without trying the buffer", c.line,
+                         "%s gives the message parked on the pipe to the user at line %s on a path that did not see "
+                         "nni_lmq_get(&s->rmq) fail: with older messages still buffered the newest one overtakes them" % (name, c.line))
+    if n < 2:
+        raise AnalysisBroken("only %d hand-outs of the parked message found" % n)
+
+
 def run(ctx):
     ctx.guard(rule_r1)
     ctx.guard(rule_r2)
     ctx.guard(rule_r3)
     ctx.guard(rule_r4)
+    ctx.guard(rule_r6)
     from . import c09
     ctx.guard(c09.rule_r8)
     for rr in ctx.rules:
